@@ -218,7 +218,12 @@ theorem leafTree_soundOn (docs : List ADoc) (hw : DocsWf docs) :
   | rangeTerm f lo hi => simp only [leafTree, mem]; exact hc
   | rangeFast f lo hi => simp only [leafTree, mem]; exact hc
   | termSet ts => simp only [leafTree, mem]; exact hc
-  | fuzzy f t dm tr pre => simp only [leafTree, mem]; exact hc
+  | fuzzy f t dm tr pre =>
+    have hp : pre = false := by simpa [leafOk] using hok
+    subst hp
+    simp only [leafTree, mem]
+    rw [contains_docsWhere docs _ d hd]
+    simp [semLeaf, implFuzzyMatch]
   | regex f lang => simp only [leafTree, mem]; exact hc
 
 end TantivyModel.BoolCompile
